@@ -60,7 +60,7 @@ Print Assumptions C17_unfold_rest_independent.
 
 Theorem C17_unfold_sequence : forall tr t old v,
   SF.Gotype.Unfold.unfold_value t old (flatten tr) = SF.Gotype.Unfold.UDone v ->
-  forall evs2 fuel2, (S (S (length (flat_map expand (flatten tr)))) + SF.Gotype.Unfold.ftsize t <= fuel2)%nat ->
+  forall evs2 fuel2, (S (S (2 * length (flat_map expand (flatten tr)))) + SF.Gotype.Unfold.ftsize t <= fuel2)%nat ->
     SF.Gotype.Unfold.uf fuel2 t old (flat_map expand (flatten tr ++ evs2)) = SF.Gotype.Unfold.UOk v (flat_map expand evs2).
 Proof. exact SF.Gotype.UnfoldProofs.C17_sequence. Qed.
 Print Assumptions C17_unfold_sequence.
